@@ -15,5 +15,5 @@ go build -o bin/check ./cmd/check
 go build ./sim/... ./harness/... >/dev/null 2>&1 || true
 # self-tests of the simulator's own models (mutex, semaphore, wait group, errgroup, disk faults,
 # symbolic links, simulated processes, deadlock detection)
-go test -count=1 ./sim/kern/ ./sim/simrt/ || echo "WARNING: kernel self-tests failed"
+go test -count=1 ./sim/kern/ ./sim/simrt/ ./sim/simtime/ || echo "WARNING: kernel self-tests failed"
 echo "setup ok"
